@@ -44,6 +44,36 @@ CHECKS = {
              "not named by the statement (Twist accessors, angvec, ...) are explored and counted, not judged.",
         technique="TLA+ broadcast/dispatch machine enumerated by TLC; per-case replay into the library",
         ref="6 (C09)"),
+    "C02": dict(
+        text="The group laws are invariants of the exact model (ExactRigid.tla: integer quaternions up to scale, rational "
+             "translations) checked by TLC on every state of GroupMachine.tla: the closed lattice cube-group x {-1,0,1}^3 "
+             "(648 states, all operations incl. X**n, |n|<=8), its planar counterpart (36), rational motions (generic "
+             "angles 36.87..143.13 deg) and all ordered pairs of cube motions (thorough). Every transition and every "
+             "depth-5 expression tree is replayed in SO2 SE2 SO3 SE3 UnitQuaternion (up to sign) Twist2 Twist3 (as "
+             "motions) and compared with the exact value at translation scales 1e-6..1e6 (exact by homogeneity). "
+             "Off the exact domain the same laws are evaluated by the implementation on both sides at real "
+             "elements with angles in [0,pi] incl. 0, pi and values within 1e-12 of them (sampled valuations).",
+        note="Exact oracle only on the integer/rational sub-domain; elsewhere laws + cross-route agreement (a defect "
+             "common to all routes that respects every law would be missed). Twist routes through an exact half turn "
+             "are left to C03.",
+        technique="TLA+ exact group model (ExactRigid/GroupMachine) model-checked with TLC; transition and "
+                  "expression-tree replay into the library; law instances on sampled real valuations",
+        ref="6 (C02), 2.2, 4"),
+    "C01": dict(
+        text="Every named constructor is an action of Ctor.tla with its exact value on the Gaussian-angle / integer-"
+             "quaternion domain (TLC checks ValOK and the sanity of the three documented axis orders) and, in the "
+             "valuation family, with symbolic arguments (0, +-pi/2, +-pi, each +-1e-12, many turns, axis lengths "
+             "1e-3..1e6, |t| up to 1e6). TLC enumerates all (constructor, order, angle, axis, translation) cases; each "
+             "is executed through every entry point bound to the action (base function, SO2/SE2/SO3/SE3/UnitQuaternion/"
+             "Twist3) in both units and the result checked with the property's own predicate (1e-9) and against the "
+             "exact value where the spec has one. Results are pushed through TLC-generated expression programs "
+             "(*, /, inv, **n), prod, interp, normalisation and the Rand constructors, re-checking every value. "
+             "Exhaustive over the enumerated option/tag space; real arguments are sampled by tag.",
+        note="GroupMachine!C01_Closure is the model-level counterpart (TLC). Validity is judged on stored arrays; "
+             "uniformity of Rand is not checked.",
+        technique="TLA+ constructor machine (Ctor.tla, ExactAngles.tla) enumerated by TLC; per-entry-point replay; "
+                  "validity predicate + exact comparison",
+        ref="6 (C01)"),
 }
 
 ENGINE = {"name": "tlc-replay", "path": "/verif/check",
